@@ -49,31 +49,6 @@ theorem no_phantoms (cfg : Cfg α β) (hc : cfg.codec.Ok) (ops : List (Op α)) (
     ∀ p ∈ r, p ∈ (run cfg init ops).acked ∨ p ∈ (run cfg init ops).inflight :=
   (inv_reachable hc ops).read_acked_or_inflight hc hr
 
-theorem run_cons (cfg : Cfg α β) (s : State α β) (op : Op α) (ops : List (Op α)) :
-    run cfg s (op :: ops) = run cfg (step cfg s op).1 ops := rfl
-
-theorem acked_from_history (cfg : Cfg α β) (ops : List (Op α)) (s : State α β) (p : Name × α)
-    (hp : p ∈ (run cfg s ops).acked) : p ∈ s.acked ∨ ∃ nm, Op.append p.2 nm ∈ ops := by
-  induction ops generalizing s with
-  | nil => exact Or.inl hp
-  | cons op ops ih =>
-    rcases ih _ hp with h | ⟨nm, h⟩
-    · rcases acked_source op h with h' | ⟨nm, rfl⟩
-      · exact Or.inl h'
-      · exact Or.inr ⟨nm, by simp⟩
-    · exact Or.inr ⟨nm, List.mem_cons_of_mem _ h⟩
-
-theorem inflight_from_history (cfg : Cfg α β) (ops : List (Op α)) (s : State α β) (p : Name × α)
-    (hp : p ∈ (run cfg s ops).inflight) : p ∈ s.inflight ∨ ∃ nm n, Op.crashAppend p.2 nm n ∈ ops := by
-  induction ops generalizing s with
-  | nil => exact Or.inl hp
-  | cons op ops ih =>
-    rcases ih _ hp with h | ⟨nm, n, h⟩
-    · rcases inflight_source op h with h' | ⟨nm, n, rfl⟩
-      · exact Or.inl h'
-      · exact Or.inr ⟨nm, n, by simp⟩
-    · exact Or.inr ⟨nm, n, List.mem_cons_of_mem _ h⟩
-
 /-- **No phantoms (history form).** Every entry `All()` returns was the argument of an append of the
 history (acknowledged, or cut by a crash). -/
 theorem no_phantoms_history (cfg : Cfg α β) (hc : cfg.codec.Ok) (ops : List (Op α)) (r : List (Name × α))
@@ -94,18 +69,6 @@ theorem acked_until_purged (cfg : Cfg α β) (hc : cfg.codec.Ok) (ops : List (Op
     (p : Name × α) (hp : p ∈ (run cfg init ops).acked) :
     p ∈ (step cfg (run cfg init ops) op).1.acked ∨ ∃ k, op = .purge k ∧ cfg.epoch p.2 < k :=
   (inv_reachable hc ops).acked_persists hc op hp
-
-theorem persists_run (cfg : Cfg α β) (hc : cfg.codec.Ok) (ops : List (Op α)) (s : State α β) (hs : Inv cfg s)
-    (p : Name × α) (hp : p ∈ s.acked) :
-    p ∈ (run cfg s ops).acked ∨ ∃ k, Op.purge k ∈ ops ∧ cfg.epoch p.2 < k := by
-  induction ops generalizing s with
-  | nil => exact Or.inl hp
-  | cons op ops ih =>
-    rcases hs.acked_persists hc op hp with h | ⟨k, rfl, hk⟩
-    · rcases ih _ (inv_step hc hs op) h with h' | ⟨k, hk, hlt⟩
-      · exact Or.inl h'
-      · exact Or.inr ⟨k, List.mem_cons_of_mem _ hk, hlt⟩
-    · exact Or.inr ⟨k, by simp, hk⟩
 
 /-- **Durability, end to end.** If an append is acknowledged after history `ops₁`, then after *any*
 continuation `ops₂` (restarts, crashes, torn appends, rotations, purges, further appends) a successful
